@@ -148,6 +148,9 @@ func (f *Frame) ownKinds() map[string]bool {
 				}
 			}
 		case *types.Interface:
+			if t.String() == "error" {
+				return // error values are immutable
+			}
 			rf.resKinds["*"] = true // anything may hide behind an interface
 		}
 	}
